@@ -319,6 +319,10 @@ pub fn generate_program_biased(rng: &mut Rng, case: &mut Case, thorough: bool, f
                     a.emit(&[0x3e, b, 0xea, 0x00, 0x20 + rng.below(0x20) as u8]);
                     let e = 0x4000 + 0x100 * rng.below(4) as u16;
                     a.emit(&[0xcd, e as u8, (e >> 8) as u8]);
+                    if rng.chance(1, 6) {
+                        // the bank count itself: wraps to bank 0, so 0x4000 shows the RST 00 routine of the fixed bank
+                        a.emit(&[0x3e, banks as u8, 0xea, 0x00, 0x21, 0xcd, 0x00, 0x40]);
+                    }
                 } else {
                     filler(&mut a, rng, 3);
                 }
